@@ -52,7 +52,23 @@ pub fn vacuum_in_place(
     let stats = pager.write_vacuum_copy(&tmp_path, &reachable)?;
     drop(pager);
 
+    #[cfg(nervusdb_verif)]
+    crate::verif::io_path(
+        "vacuum.rename.backup",
+        crate::verif::IoOp::Rename,
+        ndb_path,
+        Some(&backup_path),
+    )
+    .map_err(Error::Io)?;
     std::fs::rename(ndb_path, &backup_path).map_err(Error::Io)?;
+    #[cfg(nervusdb_verif)]
+    crate::verif::io_path(
+        "vacuum.rename.install",
+        crate::verif::IoOp::Rename,
+        &tmp_path,
+        Some(ndb_path),
+    )
+    .map_err(Error::Io)?;
     if let Err(e) = std::fs::rename(&tmp_path, ndb_path) {
         let _ = std::fs::rename(&backup_path, ndb_path);
         let _ = std::fs::remove_file(&tmp_path);
